@@ -19,7 +19,7 @@ COQ = os.path.join(VERIF, "coq")
 BUILD = os.path.join(VERIF, "build")
 REPO = os.environ.get("VERIF_REPO", "/repo")
 SHARD_BYTES = 140_000
-NPROC = min(16, os.cpu_count() or 4)
+NPROC = int(os.environ.get("VERIF_NPROC", min(16, os.cpu_count() or 4)))
 
 
 def setup_paths():
